@@ -1,15 +1,108 @@
-# Per-property descriptions used in the evidence files (what a "non-trivial distinct case" is, which
-# components ran real code, assumptions specific to the property).
-REAL = "all of otter's non-test code (instrumented copy of /repo's working tree): cache_impl, policy, hashmap, MPSC write buffer, lossy read buffer, timer wheel, singleflight, sketch, stats"
-STUBS = "none of otter; the harness supplies clock, executor variants, loaders, handlers, calculators, weigher (the seams otter exposes); sync/atomic/channels/time/rand/maphash are replaced by simulator shims"
+# Per-property descriptions used in MANIFEST.json and in the evidence files: what a "non-trivial
+# distinct case" is, which components ran real code, level texts, assumptions.
+REAL = ("all of otter's non-test code from an instrumented copy of /repo's working tree: cache_impl, policy, "
+        "hashmap, MPSC write buffer, lossy read buffer, timer wheel, singleflight, sketch, stats, persistence")
+STUBS = ("none of otter. The harness plays the parties otter exposes seams for: clock, executor variants, loaders, "
+         "deletion handlers, expiry/refresh calculators, weigher, io streams; sync, sync/atomic, channels, go statements, "
+         "time.Now, math/rand, hash/maphash, runtime.GOMAXPROCS/AddCleanup are replaced by simulator shims")
+
 
 def comp():
     return {"real": REAL, "stubbed": STUBS}
 
+
+SEQ_NOTE = ("Trusted: the simulator runtime and instrumenter (self-tested: determinism + repository tests on the instrumented "
+            "tree), the reference model (DESIGN.md Appendix A), go1.26.8 instead of the baseline's go1.24. "
+            "Sampling: programs of 20-200 operations over 2-12 keys; no exhaustiveness claim.")
+CONC_NOTE = ("Trusted: the simulator runtime (schedules are decided at sync/atomic/channel/clock/callback points under sequential "
+             "consistency; plain-memory races and weak-memory effects are not explored), the instrumenter, the oracle. "
+             "Sampling: 2-5 client tasks x 3-40 operations; schedules from random-walk / PCT / burst / window strategies.")
+
 META = {
     "C01": {
+        "technique": "deterministic simulation: seeded operation/clock sequences vs executable reference model (refinement check after every step)",
+        "level_text": "Seeded search over (configuration, operation sequence, clock advances) with every return value, deletion event and the full observable state compared to a map-with-deadlines model after every step; all 12 node layouts x expiry/refresh kinds x capacities are drawn. A clean batch is evidence, not proof.",
+        "level_note": SEQ_NOTE,
         "rule": "one case = (configuration, generated operation sequence) run sequentially with the same-goroutine executor and a manual clock; every step's return values, events and the full observable state are compared with the reference model. Non-trivial: the run applied operations to keys in state absent AND live AND (expired-unswept or automatically removed). Distinct: hash of (configuration, operation list).",
         "components": comp(),
-        "assumptions": ["behaviour the documentation leaves open (cancelled Compute as a read for access expiry; pre/post-read deadline in GetEntry) is accepted either way"],
+        "assumptions": ["behaviour the documentation leaves open (cancelled Compute as a read for access expiry; pre/post-read deadline in GetEntry; refresh rule for volunteered bulk keys; whether a load result survives an eviction of its key during the same bulk call) is accepted either way"],
     },
+    "C03": {
+        "technique": "deterministic simulation: clock steered onto deadlines (sub-tick, no sweep), every operation kind applied to expired-unswept keys, incl. save/load; model visibility oracle",
+        "level_text": "Seeded search that drives keys into the expired-but-unswept state (clock advanced to deadline-1/deadline/deadline+1, no CleanUp) and applies every public operation kind to them, comparing results, events and state with the model; a second engine saves and reloads caches holding such entries. The op-kind x key-state matrix is reported so an uncovered cell is visible.",
+        "level_note": SEQ_NOTE,
+        "rule": "one case = (configuration with expiry, operation sequence [, save/load plan]). Non-trivial: at least 3 different operation kinds were applied to an expired-but-unswept key (sequence engine) or a save/load round trip ran (persistence engine). Distinct: hash of the case.",
+        "components": comp(),
+        "assumptions": ["the concurrent-rounds form (clock moves only at barriers) is covered by the C02/C09 engines only for configurations without reachable expiry; C03's concurrent half is decided sequentially per round here"],
+    },
+    "C07": {
+        "technique": "deterministic simulation: weights/maxima/clock sequences; every Overflow/Expiration event checked against the model's physical weight and deadlines at that moment",
+        "level_text": "Seeded search over weight patterns, SetMaximum changes and clock advances with the same-goroutine executor; each automatic removal event is checked for truthfulness against the model (total physical weight > maximum or entry alone exceeds it and weight > 0; deadline <= now), unbounded caches must never emit Overflow.",
+        "level_note": SEQ_NOTE,
+        "rule": "one case = (configuration, operation sequence). Non-trivial: at least one automatic removal (Overflow or Expiration) happened in the run. Distinct: hash of the case.",
+        "components": comp(),
+        "assumptions": ["when sub-operations of one call interleave with evictions, the weight total used is an upper bound (model weight + weights still to be installed by the call): sound, slightly weaker"],
+    },
+    "C10": {
+        "technique": "deterministic simulation with loader fault injection: result shapes (value/error/not-found/panic/partial/extra/empty) x cache content shapes; statement-derived oracle on results, cache state and loader arguments",
+        "level_text": "Seeded search over Get/BulkGet with injected loader outcomes against caches containing hits, misses, stale and expired-unswept entries and duplicate keys; results, post-state and the logged loader argument lists are compared with what the statement prescribes.",
+        "level_note": SEQ_NOTE,
+        "rule": "one case = (configuration, operation sequence biased to Get/BulkGet with loader plans). Non-trivial: at least two different loader outcomes occurred and at least one bulk call had omitted, extra or duplicate keys. Distinct: hash of the case.",
+        "components": comp(),
+        "assumptions": [],
+    },
+    "C11": {
+        "technique": "deterministic simulation: reads around the refresh deadline with injected reload outcomes, manual Refresh/BulkRefresh result channels, same-goroutine executor (concurrent part: see C09 engine)",
+        "level_text": "Seeded search over reads/writes/clock advances around refresh deadlines with reload outcomes value/error/not-found/panic; checks the value served, the Reload arguments (key, old value), swap/keep/remove, refresh and expiry deadlines afterwards, exactly one result per manual refresh, nil channel without a RefreshCalculator.",
+        "level_note": SEQ_NOTE,
+        "rule": "one case = (configuration with refresh, operation sequence). Non-trivial: at least one reload of a stale entry or one manual refresh with a bulk reload happened. Distinct: hash of the case.",
+        "components": comp(),
+        "assumptions": ["readers-while-reload-in-flight is exercised by the concurrent engines (C08/C09), not here"],
+    },
+    "C12": {
+        "technique": "deterministic simulation: extreme clocks/durations (up to MaxInt64) through every calculator kind and override; exact deadline comparison via GetEntryQuietly after every step, visibility flip at the deadline",
+        "level_text": "Seeded search with clock origins up to 2^63-2^50 and durations up to MaxInt64 through creation/write/access/custom calculators, SetExpiresAfter/SetRefreshableAfter; ExpiresAtNano/RefreshableAtNano must equal op time + duration exactly where representable, otherwise the entry must stay visible; the generator steps the clock to deadline-1/deadline/deadline+1.",
+        "level_note": SEQ_NOTE,
+        "rule": "one case = (configuration with expiry [and refresh], operation sequence). Non-trivial: at least 5 operations touched live entries (deadline computed and compared). Distinct: hash of the case.",
+        "components": comp(),
+        "assumptions": ["the simulated clock never reaches MaxInt64 itself"],
+    },
+    "C13": {
+        "technique": "deterministic simulation: TTLs from ns to years, huge clock jumps, CleanUp as an operation; after each CleanUp every entry overdue by more than one tick must have been reported (timer-wheel sweep oracle)",
+        "level_text": "Seeded search with TTLs log-uniform from 1 ns to 3 years (all wheel levels, cascades), extensions, invalidations and clock jumps up to centuries; after each CleanUp at T no entry with deadline and write older than T-1.1s may remain unreported, and EstimatedSize must equal the number of unreported entries.",
+        "level_note": SEQ_NOTE,
+        "rule": "one case = (configuration with expiry, operation sequence with CleanUp). Non-trivial: at least one sweep check ran and at least one automatic expiration was observed. Distinct: hash of the case.",
+        "components": comp(),
+        "assumptions": ["entries whose deadline was shortened by a read/override are exempt, as the property's proviso says", "the write-vs-maintenance race of C13 is explored by the concurrent engine (C05/C14 runs with expiry)"],
+    },
+    "C19": {
+        "technique": "deterministic simulation with simulated stream (short reads, EOF-with-data) and clock offset between SaveCacheTo and LoadCacheFrom; statement-derived round-trip oracle",
+        "level_text": "Seeded search: a source cache is built by a random program, saved to a simulated stream, the clock advances (0, 1, onto a deadline, or far), and a fresh target (same, smaller or larger maximum) loads through a reader with short reads; key/value/expiry/refresh deadlines of every live entry, nothing absent/expired, everything-when-it-fits, bound otherwise.",
+        "level_note": SEQ_NOTE,
+        "rule": "one case = (configuration, operation sequence, save/load plan: clock offset, target maximum, read chunking). Non-trivial: the round trip ran to completion. Distinct: hash of the case.",
+        "components": comp(),
+        "assumptions": ["hard I/O errors and truncation are not claimed: C19 does not speak about failing streams"],
+    },
+    "C20": {
+        "technique": "deterministic simulation: harness-side tallies of lookups / loader invocations / automatic removals vs Stats() snapshots (exact in sequential runs)",
+        "level_text": "Seeded search with a stats recorder attached; after generated operation sequences with injected loader outcomes the Stats() snapshot must equal the harness tallies exactly (hits, load successes/failures), misses up to the documented ambiguity of panicking computes, evictions within [Overflow, Overflow+Expiration].",
+        "level_note": SEQ_NOTE,
+        "rule": "one case = (configuration with stats, operation sequence). Non-trivial: loader invocations, hits and misses all occurred. Distinct: hash of the case.",
+        "components": comp(),
+        "assumptions": ["a Compute whose callback panics may or may not be counted as a lookup"],
+    },
+}
+
+NOT_APPLICABLE = {
+    "C02": "check under construction in this round (concurrent engine); not claimed until it passes on the unchanged tree",
+    "C04": "check under construction in this round (concurrent engine); not claimed until it passes on the unchanged tree",
+    "C05": "check under construction in this round (concurrent engine); not claimed until it passes on the unchanged tree",
+    "C06": "check under construction in this round (concurrent engine); not claimed until it passes on the unchanged tree",
+    "C08": "check under construction in this round (concurrent engine); not claimed until it passes on the unchanged tree",
+    "C09": "check under construction in this round (concurrent engine); not claimed until it passes on the unchanged tree",
+    "C14": "check under construction in this round (concurrent engine); not claimed until it passes on the unchanged tree",
+    "C15": "check under construction in this round (component engine); not claimed until it passes on the unchanged tree",
+    "C16": "check under construction in this round (component engine); not claimed until it passes on the unchanged tree",
+    "C17": "check under construction in this round (component engine); not claimed until it passes on the unchanged tree",
+    "C18": "check under construction in this round (component engine); not claimed until it passes on the unchanged tree",
 }
